@@ -59,9 +59,9 @@ void KrylovObserver::on_checkpoint(int kind, const spectra_verif::FacView& v)
     if (kind == CK_INIT) compress_since_init = expands_since_init = 0;
     if (kind == CK_COMPRESS) compress_since_init++;
     if (kind == CK_EXPAND) expands_since_init++;
-    // pinned-tree known findings of the general (Arnoldi) solvers: basis orthonormality drifts after many
-    // implicit restarts and is lost after a breakdown; no verdict there (declared, DESIGN.md section 5)
-    if (general && (compress_since_init > 10 || expands_since_init > 0))
+    // pinned-tree known finding of the general (Arnoldi) solvers: basis orthonormality drifts over many
+    // implicit restarts; no verdict there (declared, DESIGN.md sections 11.3 and 12)
+    if (general && (compress_since_init > 6 || (skip_after_expand && expands_since_init > 0)))
     {
         skipped_known_regime++;
         return;
